@@ -71,6 +71,10 @@ impl RtpsStatefulReader {
     ) {
         let writer_guid = Guid::new(source_guid_prefix, data_submessage.writer_id());
         let sequence_number = data_submessage.writer_sn();
+        // i64::MAX cannot be followed by another sample: `highest_received + 1` would overflow
+        if sequence_number == i64::MAX {
+            return;
+        }
         if let Some(writer_proxy) = self
             .matched_writers
             .iter_mut()
@@ -119,7 +123,7 @@ impl RtpsStatefulReader {
         source_timestamp: Option<Time>,
     ) {
         // A fragment size of zero is invalid and would divide by zero in the writer proxy
-        if data_frag_submessage.fragment_size() == 0 {
+        if data_frag_submessage.fragment_size() == 0 || data_frag_submessage.writer_sn() == i64::MAX {
             return;
         }
         let writer_guid = Guid::new(source_guid_prefix, data_frag_submessage.writer_id());
